@@ -1,5 +1,5 @@
-(** VirtualProofs.v — virtual signals: the per-timestamp cache never serves a value for another
-    time point; defsig naming, reference rewriting and registration (C13). *)
+(** VirtualProofs.v — virtual signals: the per-index cache never serves a value for another
+    index; defsig naming, reference rewriting and registration (C13). *)
 From WalModel Require Import Eval.
 From WalModel.proofs Require Import VcdProofs TraceProofs.
 Local Open Scope Z_scope.
@@ -45,7 +45,7 @@ Section Virtual.
   Variable ev : val -> M val.
 
   Lemma virtual_value_unfold tid name st t vs ts :
-    vs_at st tid name = Some (t, vs) -> znth (tr_ts t) (tr_index t) = Some ts ->
+    vs_at st tid name = Some (t, vs) -> tr_index t = ts ->
     virtual_value ev tid name st =
     match cache_find ts (vs_cache vs) with
     | Some v => Ok v st
@@ -67,7 +67,7 @@ Section Virtual.
     unfold vs_at. intros Hv Hts. unfold virtual_value. unfold bind at 1. unfold get_st at 1.
     destruct (alookup tid (c_traces (st_cont st))) as [t0|]; [|discriminate].
     destruct (alookup name (tr_virt t0)) as [vs0|]; [|discriminate]. injection Hv as -> ->.
-    rewrite Hts.
+    cbv zeta. rewrite Hts.
     match goal with |- context [match ?F (vs_cache vs) with _ => _ end] =>
       replace (F (vs_cache vs)) with (cache_find ts (vs_cache vs)) end.
     2:{ induction (vs_cache vs) as [|[k w] r IH]; [reflexivity|]. cbn [cache_find]. destruct (k =? ts); [reflexivity|apply IH]. }
@@ -82,14 +82,14 @@ Section Virtual.
 
   (** a hit returns the value stored under the current timestamp and changes nothing *)
   Theorem virtual_hit tid name st t vs ts v :
-    vs_at st tid name = Some (t, vs) -> znth (tr_ts t) (tr_index t) = Some ts ->
+    vs_at st tid name = Some (t, vs) -> tr_index t = ts ->
     cache_find ts (vs_cache vs) = Some v ->
     virtual_value ev tid name st = Ok v st.
   Proof. intros Hv Hts Hc. rewrite (virtual_value_unfold _ _ _ _ _ _ Hv Hts), Hc. reflexivity. Qed.
 
   (** a miss evaluates the body at the current index: the value is the body's last value *)
   Theorem virtual_miss tid name st t vs ts vals st2 v t2 vs2 :
-    vs_at st tid name = Some (t, vs) -> znth (tr_ts t) (tr_index t) = Some ts ->
+    vs_at st tid name = Some (t, vs) -> tr_index t = ts ->
     cache_find ts (vs_cache vs) = None ->
     eval_args ev (vs_body vs) st = Ok vals st2 -> last_opt vals = Some v ->
     vs_at st2 tid name = Some (t2, vs2) ->
@@ -100,7 +100,7 @@ Section Virtual.
 
   (** an erroring body is reported and nothing is cached *)
   Theorem virtual_miss_error tid name st t vs ts e st2 :
-    vs_at st tid name = Some (t, vs) -> znth (tr_ts t) (tr_index t) = Some ts ->
+    vs_at st tid name = Some (t, vs) -> tr_index t = ts ->
     cache_find ts (vs_cache vs) = None ->
     eval_args ev (vs_body vs) st = Er e st2 ->
     virtual_value ev tid name st = Er e st2.
@@ -119,7 +119,7 @@ Section Virtual.
   (** soundness of one read, for any visit order: if the cache is sound for [f] and the body's
       value at the current time point is [f ts], the value served is [f ts] *)
   Theorem virtual_value_sound (f : Z -> val) tid name st t vs ts v st' :
-    vs_at st tid name = Some (t, vs) -> znth (tr_ts t) (tr_index t) = Some ts ->
+    vs_at st tid name = Some (t, vs) -> tr_index t = ts ->
     cache_ok f vs ->
     (forall vals st2, eval_args ev (vs_body vs) st = Ok vals st2 -> last_opt vals = Some (f ts)) ->
     virtual_value ev tid name st = Ok v st' -> v = f ts.
@@ -134,7 +134,7 @@ Section Virtual.
 
   (** ... and the cache is still sound afterwards (the invariant of every history of reads) *)
   Theorem virtual_value_keeps_cache_ok (f : Z -> val) tid name st t vs ts v st' :
-    vs_at st tid name = Some (t, vs) -> znth (tr_ts t) (tr_index t) = Some ts ->
+    vs_at st tid name = Some (t, vs) -> tr_index t = ts ->
     cache_ok f vs ->
     (forall vals st2, eval_args ev (vs_body vs) st = Ok vals st2 -> last_opt vals = Some (f ts)) ->
     (forall vals st2 t2 vs2, eval_args ev (vs_body vs) st = Ok vals st2 -> vs_at st2 tid name = Some (t2, vs2) ->
@@ -156,7 +156,7 @@ Section Virtual.
 
   (** a value is cached under the timestamp of the index at which it was computed, and at most once *)
   Theorem cache_keys_unique_step tid name st t vs ts vals st2 v t2 vs2 :
-    vs_at st tid name = Some (t, vs) -> znth (tr_ts t) (tr_index t) = Some ts ->
+    vs_at st tid name = Some (t, vs) -> tr_index t = ts ->
     cache_find ts (vs_cache vs) = None ->
     eval_args ev (vs_body vs) st = Ok vals st2 -> last_opt vals = Some v ->
     vs_at st2 tid name = Some (t2, vs2) -> tr_tid t2 = tid ->
